@@ -171,7 +171,21 @@ def run(ctx, eng):
            ['connection.H2Connection._receive_goaway_frame'],
            'queued output is dropped only on a received GOAWAY (found %s)'
            % [c.split('.')[-1] for c in callers])
-    cm.include(ctx, eng, 'C21', {'ARITH.slice'},
+    cm.include(ctx, eng, 'C21', {'ARITH.slice', 'OWN.buffer',
+                                 'OWN.decisions'},
                'an ACK that was queued is handed out whole: data_to_send '
-               'partitions the buffer')
+               'partitions the buffer; and a PING that has arrived completely '
+               'is reported whatever was delivered before it: the parser '
+               'keeps no state from incomplete input beyond the bytes')
     cm.check_event_classes(ctx, eng, {'PingReceived', 'PingAckReceived'})
+    # "every received PING": no payload makes the handler give up - the only
+    # refusal is the connection machine's (a closed connection)
+    fpi = eng.m.func('connection.H2Connection._receive_ping_frame')
+    esc = eng.R.of(fpi.qual)
+    extra = sorted(set(esc) - {'ProtocolError'})
+    ctx.ob('ESC.ping', fpi.qual, 'refused by the connection machine only',
+           not extra, '; '.join('%s from %s' % (x, '; '.join(sorted(
+               '%s %s' % (o[0].split('.')[-1], o[2])
+               for o in getattr(esc[x], 'origins', ())))[:160])
+               for x in extra) or 'escape set %s' % sorted(esc),
+           node=fpi.node)
